@@ -37,7 +37,7 @@ fn file_order(dir: &std::path::Path, bucket: u16) -> Vec<Uuid> {
 }
 
 pub async fn conc_history(ctx: &mut Ctx, root: &std::path::Path, tag: &str) {
-    let cfg = Cfg { nb: *ctx.rng.pick(&[1u16, 2]), segsize: 128 * 1024, compression: ctx.rng.chance(1, 2), sync_ms: 4 };
+    let cfg = Cfg { nb: *ctx.rng.pick(&[1u16, 2, 2, 4, 6]), segsize: 128 * 1024, compression: ctx.rng.chance(1, 2), sync_ms: 4 };
     let mut w = World::new(ctx, root, cfg, tag);
     let op = format!("st open nb={} seg={} c={}", w.cfg.nb, w.cfg.segsize, w.cfg.compression as u8);
     w.hist.push(op.clone());
